@@ -306,7 +306,7 @@ namespace smt
             const auto [v1, c1] = *it;
             if (c1 != -rational::ONE)
                 throw std::invalid_argument("not a valid real difference logic expression..");
-            const auto dist = distance(v0, v1);
+            const auto dist = distance(v1, v0);
             c_lb += dist.first + expr.known_term;
             c_ub += dist.second + expr.known_term;
             break;
